@@ -14,7 +14,11 @@ EXPLANATION = ("Encoders: every `From<X> for RawControl` / `From<X> for Exop` is
 TRUSTED = ['lber serialisation of a shape (C07)', 'RFC tables transcribed in this module']
 UNDECIDED = ['byte-level equality of arbitrary field contents', 'EndTxnResp (not in the property\'s list of response values)']
 ASSUMPTIONS = []
-SHARED = [('C03', ('T1.dispatch',), 'Y0.response-name-and-value')]      # the name and value every extended-response parser starts from are lifted out of the ExtendedResponse by the LDAPResult decoder: [10] and [11], present = Some, whatever they contain
+SHARED = [('C03', ('T1.dispatch',), 'Y0.response-name-and-value'),
+          # "a control list survives the message envelope unchanged": for the messages of a Search that are not its result - entries and
+          # continuation references - the decoded control list travels next to the protocolOp through the item channel; what the stream
+          # hands out must be (tag, that list) for both kinds, whoever builds the value
+          ('C10', ('Q2.entry-from-received-item', 'Q2.coverage'), 'Z15.item-controls-reach-the-caller')]      # the name and value every extended-response parser starts from are lifted out of the ExtendedResponse by the LDAPResult decoder: [10] and [11], present = Some, whatever they contain
 
 def inline_policy(c):
     """Default impls and every function of the control / exop modules themselves (private helpers, integer conversions of their
